@@ -48,6 +48,7 @@ func newSubscription(log logutil.Log, stopch <-chan struct{}, readych <-chan str
 		lc:      lc,
 	}
 
+	verifTrace(s, "sub.new", cache)
 	go s.lc.WatchChannel(stopch)
 
 	go s.run()
@@ -94,13 +95,16 @@ func (s *_subscription) run() {
 	for {
 		select {
 		case err := <-s.lc.ShutdownRequest():
+			verifTrace(s, "sub.stopping", err)
 			s.log.Debugf("shutdown requested: %v", err)
 			s.lc.ShutdownInitiated(err)
 			return
 		case evt := <-s.inch:
+			verifTrace(s, "sub.in", evt)
 			select {
 			case s.outch <- evt:
 			default:
+				verifTrace(s, "sub.drop", evt)
 				s.log.Warnf("event buffer overrun")
 			}
 		}
